@@ -1,9 +1,13 @@
-(* C15 — where byte parity and pool-state independence FAIL: a record packer that
-   advances over octets it does not write.  This is what the library's packDataA does
-   for a 16-byte address that is not IPv4 (copy(msg[off:], a.To4()) with To4() == nil,
-   then off += 4): A, L32, and the IPv4 gateway of IPSECKEY / AMTRELAY.  The instance
-   below is in-place and fails or succeeds independently of stale content, i.e. it
-   satisfies every hypothesis of Proofs_pack except prefix-determinism. *)
+(* C15 — the packer that advances over octets it does not write (the library's packDataA
+   for a 16-byte address that is not IPv4: copy(msg[off:], a.To4()) with To4() == nil,
+   then off += 4; A, L32, and the IPv4 gateway of IPSECKEY / AMTRELAY).
+
+   * It satisfies every premise of the theorems in Proofs_pack (in place, frame, in bounds,
+     same success, Len() contract): the premises are what the real library provides.
+   * Against the packer as it was BEFORE fix a876f32 ([try_pack_unscrubbed]: no clear of
+     the pooled buffer) it breaks byte parity and pool-state independence — the recorded
+     finding stale-a-rdata, kept here as regression examples about the old variant.
+   * Against the packer as it is now ([try_pack]) the same inputs give the library's bytes. *)
 From Sdns Require Import Common.Base Gen.C15 C15.Model C15.Proofs_buf C15.Proofs_pack.
 Open Scope nat_scope.
 
@@ -38,16 +42,61 @@ Proof.
   apply write_length. cbn. lia.
 Qed.
 
+Lemma skip_name_frame : frame_name unit unit skip_name.
+Proof.
+  intros K n b1 b2 off cm c o1 b1' cm1 o2 b2' cm2 Ha H1 H2. unfold skip_name in H1, H2.
+  destruct (length b1 <? off + 1); [discriminate|]. destruct (length b2 <? off + 1); [discriminate|].
+  injection H1 as <- <- <-. injection H2 as <- <- <-.
+  split; [reflexivity|]. split; [reflexivity|]. apply agree_write_any. assumption.
+Qed.
+
+(* the skipped octets stay what they were: wherever the buffers agreed they still do *)
+Lemma skip_rr_frame : frame_rr unit unit unit skip_rr.
+Proof.
+  intros K h bd b1 b2 off cm c he1 o1 b1' cm1 he2 o2 b2' cm2 Ha H1 H2. unfold skip_rr in H1, H2.
+  destruct (length b1 <? off + 15); [discriminate|]. destruct (length b2 <? off + 15); [discriminate|].
+  injection H1 as <- <- <- <-. injection H2 as <- <- <- <-.
+  split; [reflexivity|]. split; [reflexivity|]. apply agree_write_any. assumption.
+Qed.
+
+Lemma skip_rr_in_bounds : in_bounds_rr unit unit unit skip_rr.
+Proof.
+  intros h bd b off cm c he o b' cm' H. unfold skip_rr in H.
+  destruct (Nat.ltb_spec (length b) (off + 15)); [discriminate|]. inversion H; subst.
+  rewrite write_length; cbn; lia.
+Qed.
+
 Lemma skip_name_same_success : same_success_name unit unit skip_name.
 Proof.
-  intros n b1 b2 off cm c _ Hl. unfold skip_name. rewrite Hl.
+  intros n b1 b2 off cm c Hl. unfold skip_name. rewrite Hl.
   destruct (length b2 <? off + 1); split; intros; auto; discriminate.
 Qed.
 
 Lemma skip_rr_same_success : same_success_rr unit unit unit skip_rr.
 Proof.
-  intros h bd b1 b2 off cm c _ Hl. unfold skip_rr. rewrite Hl.
+  intros h bd b1 b2 off cm c Hl. unfold skip_rr. rewrite Hl.
   destruct (length b2 <? off + 15); split; intros; auto; discriminate.
+Qed.
+
+Lemma skip_name_len_bounds : len_bounds_name unit unit skip_name skip_q_len.
+Proof.
+  intros n b off cm c o b' cm' H. unfold skip_name in H.
+  destruct (length b <? off + 1); [discriminate|]. inversion H; subst. unfold skip_q_len. lia.
+Qed.
+Lemma skip_rr_len_bounds : len_bounds_rr unit unit unit skip_rr skip_rr_len.
+Proof.
+  intros h bd b off cm c he o b' cm' H. unfold skip_rr in H.
+  destruct (length b <? off + 15); [discriminate|]. inversion H; subst. unfold skip_rr_len. lia.
+Qed.
+Lemma skip_name_len_suffices : len_suffices_name unit unit skip_name skip_q_len.
+Proof.
+  intros n b off cm c o b' cm' _ b2 Hroom. unfold skip_name, skip_q_len in *.
+  destruct (Nat.ltb_spec (length b2) (off + 1)); [lia|discriminate].
+Qed.
+Lemma skip_rr_len_suffices : len_suffices_rr unit unit unit skip_rr skip_rr_len.
+Proof.
+  intros h bd b off cm c he o b' cm' _ b2 Hroom. unfold skip_rr, skip_rr_len in *.
+  destruct (Nat.ltb_spec (length b2) (off + 15)); [lia|discriminate].
 Qed.
 
 (* one library A record (plain, admissible), no question, no OPT *)
@@ -61,66 +110,62 @@ Definition w_dirty : pstate unit unit unit :=
   mk_pstate unit unit unit (repeat 255%N (N.to_nat pack_buffer_size)) None None (hdr_zero unit tt) None.
 
 Notation TPw := (try_pack unit unit unit tt tt (fun _ => 0%N) skip_name skip_rr skip_q_len skip_rr_len).
+Notation TPold := (try_pack_unscrubbed unit unit unit tt tt (fun _ => 0%N) skip_name skip_rr skip_q_len skip_rr_len).
 Notation LPw := (lib_pack unit unit unit tt skip_name skip_rr skip_q_len skip_rr_len).
 
 Lemma w_dirty_inv : pool_inv unit unit unit tt tt w_dirty.
 Proof. unfold pool_inv, w_dirty. cbn. rewrite repeat_length. repeat split; auto. Qed.
 
-Definition w_pooled_bytes : buf :=
+Definition w_stale_bytes : buf :=
   [0;7;132;128;0;0;0;1;0;0;0;0; 0;0;1;0;1;0;0;14;16;0;4; 255;255;255;255]%N.
 Definition w_library_bytes : buf :=
   [0;7;132;128;0;0;0;1;0;0;0;0; 0;0;1;0;1;0;0;14;16;0;4; 0;0;0;0]%N.
 
-Lemma w_pooled : tp_bytes unit unit unit (TPw w_dirty w_msg) = Some w_pooled_bytes.
-Proof. vm_compute. reflexivity. Qed.
-
 Lemma w_library : LPw w_msg = (LOk w_library_bytes, w_msg).
 Proof. vm_compute. reflexivity. Qed.
 
-Lemma w_fresh : tp_bytes unit unit unit (TPw (fresh_state unit unit unit tt) w_msg) = Some w_library_bytes.
+(* ---- the code as it is: the dirty pooled buffer is invisible ---- *)
+Lemma w_pooled_now : tp_bytes unit unit unit (TPw w_dirty w_msg) = Some w_library_bytes.
 Proof. vm_compute. reflexivity. Qed.
 
-(* byte parity fails: the pooled packer handles the message and emits other bytes than
-   the library, namely four octets of whatever was packed before *)
-Lemma trypack_eq_libpack_refuted_l :
-  exists (pack_name : unit -> buf -> nat -> option unit -> bool -> option (nat * buf * option unit))
-         (pack_rr : rrhdr unit -> unit -> buf -> nat -> option unit -> bool -> option (nat * nat * buf * option unit))
-         q_len rr_len st m bytes bytes',
-    in_place_name unit unit pack_name /\ in_place_rr unit unit unit pack_rr /\
-    same_success_name unit unit pack_name /\ same_success_rr unit unit unit pack_rr /\
-    pool_inv unit unit unit tt tt st /\
-    tp_bytes unit unit unit (try_pack unit unit unit tt tt (fun _ => 0%N) pack_name pack_rr q_len rr_len st m) = Some bytes /\
-    lib_pack unit unit unit tt pack_name pack_rr q_len rr_len m = (LOk bytes', m) /\
-    bytes <> bytes'.
+Lemma skipping_packer_premises :
+  in_place_name unit unit skip_name /\ in_place_rr unit unit unit skip_rr /\
+  frame_name unit unit skip_name /\ frame_rr unit unit unit skip_rr /\ in_bounds_rr unit unit unit skip_rr /\
+  same_success_name unit unit skip_name /\ same_success_rr unit unit unit skip_rr /\
+  len_bounds_name unit unit skip_name skip_q_len /\ len_bounds_rr unit unit unit skip_rr skip_rr_len /\
+  len_suffices_name unit unit skip_name skip_q_len /\ len_suffices_rr unit unit unit skip_rr skip_rr_len /\
+  pool_inv unit unit unit tt tt w_dirty /\
+  tp_bytes unit unit unit (TPw w_dirty w_msg) = Some w_library_bytes /\
+  LPw w_msg = (LOk w_library_bytes, w_msg).
 Proof.
-  exists skip_name, skip_rr, skip_q_len, skip_rr_len, w_dirty, w_msg, w_pooled_bytes, w_library_bytes.
   split; [exact skip_name_in_place|]. split; [exact skip_rr_in_place|].
+  split; [exact skip_name_frame|]. split; [exact skip_rr_frame|]. split; [exact skip_rr_in_bounds|].
   split; [exact skip_name_same_success|]. split; [exact skip_rr_same_success|].
-  split; [exact w_dirty_inv|]. split; [exact w_pooled|]. split; [exact w_library|].
-  unfold w_pooled_bytes, w_library_bytes. intros H. inversion H.
+  split; [exact skip_name_len_bounds|]. split; [exact skip_rr_len_bounds|].
+  split; [exact skip_name_len_suffices|]. split; [exact skip_rr_len_suffices|].
+  split; [exact w_dirty_inv|]. split; [exact w_pooled_now|exact w_library].
 Qed.
 
-(* pool-state independence fails with it: two states that both satisfy the release
-   invariant give different output *)
-Lemma pool_state_noninterference_refuted_l :
-  exists (pack_name : unit -> buf -> nat -> option unit -> bool -> option (nat * buf * option unit))
-         (pack_rr : rrhdr unit -> unit -> buf -> nat -> option unit -> bool -> option (nat * nat * buf * option unit))
-         q_len rr_len st1 st2 m,
-    in_place_name unit unit pack_name /\ in_place_rr unit unit unit pack_rr /\
-    same_success_name unit unit pack_name /\ same_success_rr unit unit unit pack_rr /\
-    pool_inv unit unit unit tt tt st1 /\ pool_inv unit unit unit tt tt st2 /\
-    tp_bytes unit unit unit (try_pack unit unit unit tt tt (fun _ => 0%N) pack_name pack_rr q_len rr_len st1 m) <>
-    tp_bytes unit unit unit (try_pack unit unit unit tt tt (fun _ => 0%N) pack_name pack_rr q_len rr_len st2 m).
+(* ---- regression: the code before fix a876f32 ---- *)
+Lemma w_pooled_before_fix : tp_bytes unit unit unit (TPold w_dirty w_msg) = Some w_stale_bytes.
+Proof. vm_compute. reflexivity. Qed.
+
+Lemma before_fix_parity_failed :
+  exists st m bytes bytes', pool_inv unit unit unit tt tt st /\
+    tp_bytes unit unit unit (TPold st m) = Some bytes /\ LPw m = (LOk bytes', m) /\ bytes <> bytes'.
 Proof.
-  exists skip_name, skip_rr, skip_q_len, skip_rr_len, w_dirty, (fresh_state unit unit unit tt), w_msg.
-  split; [exact skip_name_in_place|]. split; [exact skip_rr_in_place|].
-  split; [exact skip_name_same_success|]. split; [exact skip_rr_same_success|].
-  split; [exact w_dirty_inv|]. split; [apply fresh_inv|].
-  rewrite w_pooled, w_fresh. unfold w_pooled_bytes, w_library_bytes. intros H. inversion H.
+  exists w_dirty, w_msg, w_stale_bytes, w_library_bytes.
+  split; [exact w_dirty_inv|]. split; [exact w_pooled_before_fix|]. split; [exact w_library|].
+  unfold w_stale_bytes, w_library_bytes. intros H. inversion H.
 Qed.
 
-(* the hypotheses of the positive theorems are satisfiable: a packer that writes what it
-   advances over *)
+Lemma before_fix_pool_state_visible :
+  tp_bytes unit unit unit (TPold w_dirty w_msg) <> tp_bytes unit unit unit (TPold (fresh_state unit unit unit tt) w_msg).
+Proof. vm_compute. intros H. inversion H. Qed.
+
+(* ---- why the shim and the OPT copy are needed: the same pack with the writes going
+   where the library sends them changes the caller's message ---- *)
+
 Definition full_rr (h : rrhdr unit) (_ : unit) (b : buf) (off : nat) (cm : option unit) (_ : bool)
   : option (nat * nat * buf * option unit) :=
   if length b <? off + 15 then None
@@ -130,49 +175,12 @@ Definition full_rr (h : rrhdr unit) (_ : unit) (b : buf) (off : nat) (cm : optio
                           [192; 0; 2; 1]%N),
              cm).
 
-Lemma full_rr_in_place : in_place_rr unit unit unit full_rr.
-Proof.
-  intros h bd b off cm c he o b' cm' H. unfold full_rr in H.
-  destruct (Nat.ltb_spec (length b) (off + 15)); [discriminate|]. inversion H; subst.
-  apply write_length. cbn. lia.
-Qed.
-
-Lemma full_rr_prefix_determined : prefix_determined_rr unit unit unit full_rr.
-Proof.
-  intros h bd b1 b2 off cm c he1 o1 b1' cm1 he2 o2 b2' cm2 Ha H1 H2. unfold full_rr in H1, H2.
-  destruct (Nat.ltb_spec (length b1) (off + 15)); [discriminate|].
-  destruct (Nat.ltb_spec (length b2) (off + 15)); [discriminate|].
-  injection H1 as <- <- <- <-. injection H2 as <- <- <- <-.
-  split; [reflexivity|]. split; [reflexivity|].
-  match goal with |- agree _ (write b1 off ?bytes) _ => change (off + 15) with (off + length bytes);
-    apply (agree_write off b1 b2 bytes); cbn [length app u16_bytes]; try lia end. assumption.
-Qed.
-
-Lemma skip_name_prefix_determined : prefix_determined_name unit unit skip_name.
-Proof.
-  intros n b1 b2 off cm c o1 b1' cm1 o2 b2' cm2 Ha H1 H2. unfold skip_name in H1, H2.
-  destruct (Nat.ltb_spec (length b1) (off + 1)); [discriminate|].
-  destruct (Nat.ltb_spec (length b2) (off + 1)); [discriminate|].
-  injection H1 as <- <- <-. injection H2 as <- <- <-.
-  split; [reflexivity|]. split; [reflexivity|].
-  change (off + 1) with (off + length [0%N]). apply (agree_write off b1 b2 [0%N]); cbn [length]; try lia. assumption.
-Qed.
-
-(* and with it the dirty state is invisible *)
-Lemma full_dirty_same :
-  tp_bytes unit unit unit (try_pack unit unit unit tt tt (fun _ => 0%N) skip_name full_rr skip_q_len skip_rr_len w_dirty w_msg) =
-  tp_bytes unit unit unit (try_pack unit unit unit tt tt (fun _ => 0%N) skip_name full_rr skip_q_len skip_rr_len (fresh_state unit unit unit tt) w_msg).
-Proof. vm_compute. reflexivity. Qed.
-
-(* ---- why the shim and the OPT copy are needed: the same pack with the writes going
-   where the library sends them changes the caller's message ---- *)
-
 (* PackRR called on the record itself (no rrView): the computed Rdlength lands in the
    caller's record header *)
 Lemma without_shim_message_changes :
   tp_msg unit unit unit
     (try_pack_gen unit unit unit tt tt (fun _ => 0%N) skip_name full_rr skip_q_len skip_rr_len
-                  (record_header unit unit) (fresh_state unit unit unit tt) w_msg) <> w_msg.
+                  true (record_header unit unit) (fresh_state unit unit unit tt) w_msg) <> w_msg.
 Proof. vm_compute. intros H. inversion H. Qed.
 
 (* a message with an OPT whose TTL carries stale extended-rcode bits: the library's Pack
